@@ -1,8 +1,134 @@
 import Driver.Codec
+import LopdfModel.Model.Outlines
+/-
+  Protocol operation of property C13:
+    c13 <mode> <fuel> <nt> <target id>* <trailer-obj> <k> (<num> <gen> <obj>)*
+  mode = all | nowalk | one=<field>; reply = one `field=value` token per query, value =
+  ok[,digest] | err | panic@<site> | diverge (fuel exhausted in an unguarded walker).
+-/
 namespace Lopdf.Driver.C13
-open Lopdf Lopdf.Codec
+open Lopdf Lopdf.Codec Lopdf.Gen Lopdf.Q13
 
-/-- protocol operations of property C13: `none` = not an operation of this property. -/
-def handle (op : String) (args : List String) : Option String := none
+/-- bytes the worker process may still allocate (harness: `ulimit -v`); generated `Count`
+values stay far away from this boundary on both sides -/
+def MEM_MAX : Nat := 2 ^ 33
+
+def idStr (id : ObjId) : String := toString id.1 ++ "_" ++ toString id.2
+def idsStr (ids : List ObjId) : String := "+".intercalate (ids.map idStr)
+def variant : Obj → String
+  | .null => "Null" | .bool _ => "Boolean" | .int _ => "Integer" | .real _ => "Real"
+  | .name _ => "Name" | .str _ _ => "String" | .arr a => "Array" ++ toString a.length
+  | .dict d => "Dictionary" ++ toString d.length | .stream d _ => "Stream" ++ toString d.length
+  | .ref _ _ => "Reference"
+def objTok (o : Obj) : String := (showObj o).replace " " "~"
+def okS (s : String) : String := if s.isEmpty then "ok" else "ok," ++ s
+def outS : Outcome String → String
+  | .ok s => okS s
+  | .err _ => "err"
+  | .panic s => "panic@" ++ s
+def outF : Option (Outcome String) → String
+  | none => "diverge"
+  | some r => outS r
+def optO {α} (f : α → String) (o : Option α) : Outcome String := (Outcome.ofOpt o).map f
+
+partial def outlineDigest : Outline → String
+  | .dest d => "d(" ++ ((Dict.get d K_Title).map objTok).getD "-" ++ "|" ++ ((Dict.get d PAGE).map objTok).getD "-" ++ ")"
+  | .sub items => "[" ++ String.join (items.map outlineDigest) ++ "]"
+
+def namedDigest (n : Named) : String :=
+  toString n.length ++ String.join (n.map fun (k, v) =>
+    match v with
+    | .dict d => ":" ++ hexTok k ++ "(" ++ ((Dict.get d K_Title).map objTok).getD "-" ++ "|" ++ ((Dict.get d PAGE).map objTok).getD "-" ++ ")"
+    | _ => ":?")
+
+def imgStr (i : Img) : String :=
+  idStr i.id ++ "." ++ toString i.width ++ "." ++ toString i.height ++ "." ++ (if i.hasCs then "s" else "n") ++ "." ++
+    (match i.bpc with | some b => toString b | none => "n") ++ "." ++ toString i.nfilters
+
+def encStr : EncKind → String
+  | .one t => "one:" ++ t
+  | .simple n => "simple:" ++ hexTok n
+  | .toUnicode => "tounicode"
+
+def parseId (s : String) : Option ObjId :=
+  match s.splitOn "_" with
+  | [a, b] => do let n ← a.toNat?; let g ← b.toNat?; pure (n, g)
+  | _ => none
+
+def fieldNames (targets : List ObjId) : List String :=
+  ["cat", "enc", "cf", "iter", "pages"] ++
+  (targets.map fun t => ["go", "gom", "gd", "pc", "pcc", "pr", "pf", "pa", "pi", "op", "fe", "nd"].map (· ++ ":" ++ idStr t)).flatten ++
+  ["outl", "toc", "dests"]
+
+def isWalker (f : String) : Bool := f == "outl" || f == "toc" || f == "dests" || f.startsWith "nd:"
+
+def pagesStr (r : Outcome (List ObjId)) : String :=
+  outS (r.map fun l => toString l.length ++ "," ++ idsStr l)
+
+def evalField (tr : Dict) (os : Objects) (fuel : Nat) (field : String) : String :=
+  let (q, t) : String × ObjId := match field.splitOn ":" with
+    | [q, a] => (q, (parseId a).getD (0, 0))
+    | _ => (field, (0, 0))
+  match q with
+  | "cat" => outS (optO (fun d => toString d.length) (catalog tr os))
+  | "enc" => outS (optO (fun d => toString d.length) (getEncrypted tr os))
+  | "cf" => let m := getCryptFilters tr os
+            okS (toString m.length ++ String.join (m.map fun (k, _) => ":" ++ hexTok k))
+  | "iter" => outS ((collectPages 8 MEM_MAX tr os).map fun (l, c) => toString l.length ++ "," ++ toString c ++ "," ++ idsStr l)
+  | "pages" => pagesStr (getPages MEM_MAX tr os)
+  | "go" => outS (optO variant (getObject os t))
+  | "gom" => outS ((getObjectMut os t).map variant)
+  | "gd" => outS (optO (fun d => toString d.length) (getDictionary os t))
+  | "pc" => okS (idsStr (getPageContents os t))
+  | "pcc" => outS ((getPageContent (fun _ _ => none) os t).map fun _ => "")
+  | "pr" => outS ((getPageResources os t).map fun (d, ids) =>
+      (match d with | some d => "d" ++ toString d.length | none => "n") ++ "," ++ idsStr ids)
+  | "pf" => outS ((getPageFonts os t).map fun fs => "+".intercalate (fs.map fun (k, d) => hexTok k ++ "." ++ toString d.length))
+  | "pa" => outS ((getPageAnnotations os t).map toString)
+  | "pi" => outS ((getPageImages os t).map fun is => "+".intercalate (is.map imgStr))
+  | "op" => outS ((getObjectPage MEM_MAX tr os t).map idStr)
+  | "fe" => outS (match getDictionary os t with
+      | none => E
+      | some d => (getFontEncoding os d).map encStr)
+  | "nd" => (match getDictionary os t with
+      | none => "err"
+      | some d => outF ((namedDests os fuel d []).map fun r => r.map namedDigest))
+  | "dests" => (match (catalog tr os).bind (destTree os) with
+      | none => "err"
+      | some t => outF ((namedDests os fuel t []).map fun r => r.map namedDigest))
+  | "outl" => outF ((getOutlines tr os fuel).map fun r => r.map fun (l, nm) =>
+      "[" ++ String.join (l.map outlineDigest) ++ "]," ++ namedDigest nm)
+  | "toc" => outF ((getToc MEM_MAX tr os fuel).map fun r => r.map fun (es, nerr) =>
+      toString es.length ++ String.join (es.map fun (lv, pg) => ":" ++ toString lv ++ "." ++ toString pg) ++ "," ++ toString nerr)
+  | _ => "bad-field"
+
+def parseTargets : Nat → List String → Option (List ObjId × List String)
+  | 0, ts => some ([], ts)
+  | n + 1, t :: ts => do
+    let id ← parseId t
+    let (ids, rest) ← parseTargets n ts
+    pure (id :: ids, rest)
+  | _, [] => none
+
+def handle (op : String) (args : List String) : Option String :=
+  match op with
+  | "c13" =>
+    some <| match args with
+    | mode :: fuelS :: ntS :: rest =>
+      match fuelS.toNat?, ntS.toNat?.bind (fun n => parseTargets n rest) with
+      | some fuel, some (targets, rest1) =>
+        match parseObj rest1 with
+        | some (.dict tr, k :: rest2) =>
+          match k.toNat?.bind (fun k => parseObjects k rest2) with
+          | some (os, []) =>
+            let fields : List String :=
+              if mode.startsWith "one=" then [(mode.drop 4).toString]
+              else (fieldNames targets).filter fun f => !(mode == "nowalk" && isWalker f)
+            " ".intercalate (fields.map fun f => f ++ "=" ++ evalField tr os fuel f)
+          | _ => "bad-op"
+        | _ => "bad-op"
+      | _, _ => "bad-op"
+    | _ => "bad-op"
+  | _ => none
 
 end Lopdf.Driver.C13
